@@ -95,7 +95,7 @@ Proof.
     unfold ci. intros H.
     assert (a = 46 /\ (b = 108 \/ b = 76) /\ (c = 97 \/ c = 65) /\ (d = 122 \/ d = 90)) as (-> & Hb & Hc & Hd) by lia.
     destruct Hb as [-> | ->], Hc as [-> | ->], Hd as [-> | ->]; cbn; tauto.
-  - intros H. cbn in H. repeat (destruct H as [H|H]; [subst suffix; reflexivity|]). destruct H.
+  - intros H. cbn in H. intuition (subst suffix; reflexivity).
 Qed.
 
 (* ------------------------------------------------------------------------------------ *)
@@ -124,19 +124,19 @@ Qed.
 Lemma remove_first_none l : count_lz l = 0 -> remove_first is_laszip l = l.
 Proof.
   induction l as [|v l IH]; [reflexivity|]. rewrite count_lz_cons. pose proof (count_lz_nonneg l).
-  cbn [remove_first]. destruct (is_laszip v); [lia|]. intros H. f_equal. apply IH. lia.
+  cbn [remove_first]. destruct (is_laszip v); [lia|]. intros Hc. f_equal. apply IH. lia.
 Qed.
 
 Lemma remove_first_last l d : count_lz l = 0 -> remove_first is_laszip (l ++ [mk_laszip d]) = l.
 Proof.
   induction l as [|v l IH]; [reflexivity|]. rewrite count_lz_cons. pose proof (count_lz_nonneg l).
-  cbn [app remove_first]. destruct (is_laszip v); [lia|]. intros H. f_equal. apply IH. lia.
+  cbn [app remove_first]. destruct (is_laszip v); [lia|]. intros Hc. f_equal. apply IH. lia.
 Qed.
 
 Lemma find_laszip_last l d : count_lz l = 0 -> find is_laszip (l ++ [mk_laszip d]) = Some (mk_laszip d).
 Proof.
   induction l as [|v l IH]; [reflexivity|]. rewrite count_lz_cons. pose proof (count_lz_nonneg l).
-  cbn [app find]. destruct (is_laszip v); [lia|]. intros H. apply IH. lia.
+  cbn [app find]. destruct (is_laszip v); [lia|]. intros Hc. apply IH. lia.
 Qed.
 
 (* the user's own records are never lost, reordered or duplicated by the strip *)
@@ -148,19 +148,23 @@ Proof.
   - cbn [filter]. rewrite E. cbn [negb]. now rewrite IH.
 Qed.
 
+(* with the statement shapes the translator found, the writer's list is: strip the first, append the fresh one *)
+Lemma writer_vlrs_eq user c d :
+  writer_vlrs user c d = remove_first is_laszip user ++ (if c then [mk_laszip d] else []).
+Proof. unfold writer_vlrs. destruct c; reflexivity. Qed.
+
 Theorem writer_keeps_others : forall user c d,
   filter (fun v => negb (is_laszip v)) (writer_vlrs user c d) = filter (fun v => negb (is_laszip v)) user.
 Proof.
-  intros. unfold writer_vlrs. rewrite filter_app, others_remove_first.
-  destruct (c && gen_writer_appends_laszip); cbn [filter]; [rewrite is_laszip_mk; cbn [negb]|]; now rewrite app_nil_r.
+  intros. rewrite writer_vlrs_eq, filter_app, others_remove_first.
+  destruct c; cbn [filter]; [rewrite is_laszip_mk; cbn [negb]|]; now rewrite app_nil_r.
 Qed.
 
 Theorem writer_count : forall user c d, count_lz user <= 1 -> count_lz (writer_vlrs user c d) = if c then 1 else 0.
 Proof.
-  intros user c d H. unfold writer_vlrs. rewrite count_lz_app, count_remove_first.
+  intros user c d H. rewrite writer_vlrs_eq, count_lz_app, count_remove_first.
   pose proof (count_lz_nonneg user).
-  destruct c; cbn [andb]; [change gen_writer_appends_laszip with true; cbv iota; rewrite count_lz_cons, is_laszip_mk|];
-    change (count_lz []) with 0; lia.
+  destruct c; [rewrite count_lz_cons, is_laszip_mk|]; change (count_lz []) with 0; lia.
 Qed.
 
 (* the invariant of all histories *)
@@ -188,11 +192,11 @@ Proof.
       * replace (f_count s >? 0) with true by lia. exact Hf.
     + exact Hf.
   - (* touch *)
-    destruct (r_lazy s) eqn:El; [|split; [rewrite Hh, El; reflexivity|split; [exact Hf|split; assumption]]].
+    destruct (r_lazy s) eqn:El; [|split; [rewrite Hh, ?El; reflexivity|split; [exact Hf|split; assumption]]].
     unfold vinv. cbn [u_held r_comp r_count r_lazy f_vlrs f_comp f_count andb].
     split; [|split; [exact Hf|split; assumption]].
     unfold reader_touch_vlrs. change gen_reader_pops_laszip with true. rewrite andb_true_r.
-    rewrite El in Hh. cbn [andb] in Hh.
+    rewrite ?El in Hh. cbn [andb] in Hh.
     destruct (r_comp s && (r_count s >? 0)).
     + rewrite count_remove_first, Hh. reflexivity.
     + exact Hh.
